@@ -719,6 +719,11 @@ func (env *specEnv) evalCall(t *ast.CallExpr) Value {
 			// disjoint(a, b): the two slices do not share a backing array
 			a, b := env.eval(t.Args[0]), env.eval(t.Args[1])
 			return boolV(Or(Not(Eq(a.C[0], b.C[0])), Eq(a.C[0], IntC(0))))
+		case "samearray":
+			// samearray(a, b): slices over the same backing array from the same offset with the same
+			// capacity (what an in-place append preserves)
+			a, b := env.eval(t.Args[0]), env.eval(t.Args[1])
+			return boolV(And(Eq(a.C[0], b.C[0]), Eq(a.C[1], b.C[1]), Eq(a.C[3], b.C[3])))
 		case "isnil":
 			x := env.eval(t.Args[0])
 			return boolV(Eq(x.C[0], IntC(0)))
